@@ -44,8 +44,8 @@ ANCHORS = [
 
 def plan(tier):
     if tier == "quick":
-        return {"shards": 16, "trees": 500, "timeout": 300}
-    return {"shards": 16, "trees": 30000, "timeout": 3000}
+        return {"shards": 16, "trees": 500, "timeout": 900}
+    return {"shards": 16, "trees": 30000, "timeout": 7200}
 
 
 def salt_literals(rng, spec):
